@@ -144,8 +144,12 @@ func trimStack(b []byte) string {
 	lines := strings.Split(string(b), "\n")
 	var keep []string
 	for _, l := range lines {
-		if strings.Contains(l, "gogreement/src") {
-			keep = append(keep, strings.TrimSpace(l))
+		if strings.Contains(l, "gogreement/src") && !strings.HasPrefix(strings.TrimSpace(l), "/") {
+			l = strings.TrimSpace(l)
+			if i := strings.Index(l, "("); i > 0 && strings.Contains(l[i:], "0x") {
+				l = l[:i] // drop argument values: addresses differ between runs
+			}
+			keep = append(keep, l)
 		}
 		if len(keep) >= 6 {
 			break
